@@ -155,12 +155,12 @@ Print Assumptions cache_never_stuck.
 (* Attaching logs to shared blocks                                     *)
 (* ------------------------------------------------------------------ *)
 
-(* Any order and any repetition of Logs.Add-style attach operations (by any
-   callers) on a well-formed block: no transaction index twice, no log index
+(* Any order and any repetition of Logs.Add-style attach operations and trace
+   attachments ([adds_only]: everything but receipts) (by any callers) on a well-formed block: no transaction index twice, no log index
    twice in a transaction, nothing that was there is lost, nothing appears
    that nobody attached, every attached index is present. *)
 Theorem attach_union_nodup : forall ops b,
-  wf_blk b -> forallb is_group ops = true ->
+  wf_blk b -> forallb adds_only ops = true ->
   let b' := a_run b ops in
   wf_blk b'
   /\ forall i,
@@ -176,7 +176,7 @@ Print Assumptions attach_union_nodup.
 (* ... and when an index always names the same log (unchanging chain), every
    attached log itself is present *)
 Theorem attach_none_lost : forall ops b i,
-  wf_blk b -> forallb is_group ops = true ->
+  wf_blk b -> forallb adds_only ops = true ->
   (forall x y, (In x (logs_of b i) \/ exists op, In op ops /\ op_tx op = i /\ In x (op_logs op)) ->
                (In y (logs_of b i) \/ exists op, In op ops /\ op_tx op = i /\ In y (op_logs op)) ->
                l_idx x = l_idx y -> x = y) ->
@@ -214,6 +214,37 @@ Theorem legacy_receipt_refuted :
 Proof. exact legacy_receipt_dup. Qed.
 Print Assumptions legacy_receipt_refuted.
 
+(* Trace actions are REPLACED, not merged: after any operations a transaction
+   carries the trace actions of the LAST trace attachment it received (its
+   initial ones if it received none); other operations leave them alone.
+   Against one unchanging block (every trace attachment to transaction i
+   carries [ftr i]) it therefore carries [ftr i] or nothing -- nothing only if
+   no trace attachment named it. *)
+Theorem attach_traces_last_wins : forall j ops cur,
+  let r := fold_left (trace_sem j) ops cur in
+  (forall bh th tas, ~ In (ATraces bh j th tas) ops) /\ r = cur
+  \/ exists bh th tas, In (ATraces bh j th tas) ops /\ r = tas.
+Proof. exact trace_sem_last. Qed.
+Print Assumptions attach_traces_last_wins.
+
+Theorem attach_traces_honest : forall (ftr : N -> list N) ops b j,
+  (forall bh i th tas, In (ATraces bh i th tas) ops -> tas = ftr i) ->
+  (traces_of b j = ftr j \/ traces_of b j = []) ->
+  traces_of (a_run b ops) j = ftr j
+  \/ (traces_of (a_run b ops) j = [] /\ forall bh th tas, ~ In (ATraces bh j th tas) ops).
+Proof. exact traces_honest. Qed.
+Print Assumptions attach_traces_honest.
+
+(* traces() before fixes/C08-traces-publish-complete.diff published the new
+   slice of trace actions empty (`make`) and filled it in place: in between, a
+   caller that already holds the shared block sees trace actions that are not
+   the transaction's.  Replayed on the implementation by the stress-tr stream. *)
+Theorem legacy_traces_refuted :
+  exists ops, traces_of (legacy_run (mkBlk 7 0 0 [mkTx 0 9 0 [] [41; 42]]) ops) 0 <> [41; 42]
+              /\ ops = [LTMake 0 2].
+Proof. exact legacy_traces_visible_incomplete. Qed.
+Print Assumptions legacy_traces_refuted.
+
 (* ------------------------------------------------------------------ *)
 (* Composition: cached Get = uncached Get on the caller's filter       *)
 (* ------------------------------------------------------------------ *)
@@ -224,35 +255,42 @@ Print Assumptions legacy_receipt_refuted.
    filter f) all of whose own attach operations have been performed on it, at
    that moment and at every later moment, each block of the segment and the
    block an uncached client returns for the same request agree on number,
-   hash, time and -- per transaction -- on the set of logs the caller asked
-   for, without a duplicate index on either side. *)
+   hash, time, -- per transaction -- on the set of logs the caller asked
+   for, without a duplicate index on either side, and (plans with traces,
+   t = true) on the trace actions of every transaction. *)
 Theorem cached_get_equiv_uncached : forall ch b mx s tr,
   chain_wf ch -> greach ch b mx s tr ->
-  forall sid sg bs x f,
+  forall sid sg bs x t f,
     nth_error (c_heap (sy_cache s)) sid = Some sg -> sg_data sg = Some bs ->
-    (forall n op, In n (krange (sg_key sg)) -> In op (caller_ops ch x f n) -> In (GAttach sid n op) tr) ->
-    Forall2 (same_view x f) bs (uget ch (Some b) x f (sg_key sg)).
+    (forall n op, In n (krange (sg_key sg)) -> In op (caller_ops ch x t f n) -> In (GAttach sid n op) tr) ->
+    Forall2 (same_view x t f) bs (uget ch (Some b) x t f (sg_key sg)).
 Proof. exact cached_equiv_uncached. Qed.
 Print Assumptions cached_get_equiv_uncached.
 
 (* The sequential caching client [cget] (the function the correspondence run
-   compares with Client.Get) IS a run of that system: LOOKUP, READ whose
-   answer -- if any -- is the chain's blocks of the key, then exactly the
-   caller's own attach operations; a successful result is the data of the
-   segment it was handed. *)
-Theorem cget_is_fine_grained_run : forall ch op cl cl' r nb nx b,
-  g_base op = Some b ->
-  cget ch op cl = Some (cl', r, nb, nx) ->
-  exists sid tr,
-    grun (mkSys (pick b cl) []) tr = Some (mkSys (pick b cl') [])
-    /\ (forall bs, r = GOk bs ->
-          (exists sg, nth_error (c_heap (pick b cl')) sid = Some sg /\ sg_data sg = Some bs)
-          /\ forall n o, In n (krange (g_key op)) -> In o (caller_ops ch (g_extra op) (g_filter op) n) ->
-                         In (GAttach sid n o) tr)
-    /\ (forall sid' d, In (GCache (ERead sid' (Some d))) tr -> d = fresh ch (Some b) (g_key op))
-    /\ (forall sid' n o, In (GAttach sid' n o) tr ->
-          In n (krange (g_key op)) /\ In o (caller_ops ch (g_extra op) (g_filter op) n)).
-Proof. exact cget_is_grun. Qed.
+   compares with Client.Get) IS a run of that system that extends any
+   reachable history: LOOKUP, READ whose answer -- if any -- is the chain's
+   blocks of the key, then the caller's attach operations up to the point
+   where the call stops (a Get that fails half way leaves what it attached in
+   the shared segment), all of them honest; a successful result is the data of
+   the segment it was handed, all the caller's operations have been performed,
+   and it has the view of the uncached result. *)
+Theorem cget_is_fine_grained_run : forall ch mx op cl cl' r nb nx nt b tr,
+  chain_wf ch -> g_base op = Some b ->
+  greach ch b mx (mkSys (pick b cl) []) tr ->
+  cget ch op cl = Some (cl', r, nb, nx, nt) ->
+  exists sid evs,
+    grun (mkSys (pick b cl) []) evs = Some (mkSys (pick b cl') [])
+    /\ greach ch b mx (mkSys (pick b cl') []) (tr ++ evs)
+    /\ (forall sid' d, In (GCache (ERead sid' (Some d))) evs -> d = fresh ch (Some b) (g_key op))
+    /\ (forall sid' n o, In (GAttach sid' n o) evs -> sid' = sid /\ In n (krange (g_key op)) /\ op_ok ch n o)
+    /\ forall bs, r = GOk bs ->
+         (exists sg, nth_error (c_heap (pick b cl')) sid = Some sg /\ sg_data sg = Some bs)
+         /\ (forall n o, In n (krange (g_key op)) ->
+               In o (caller_ops ch (g_extra op) (g_traces op) (g_filter op) n) -> In (GAttach sid n o) evs)
+         /\ Forall2 (same_view (g_extra op) (g_traces op) (g_filter op)) bs
+                    (uget ch (Some b) (g_extra op) (g_traces op) (g_filter op) (g_key op)).
+Proof. exact cget_extends. Qed.
 Print Assumptions cget_is_fine_grained_run.
 
 (* Hence, for the sequential caching client and EVERY sequence of Gets (any
@@ -261,7 +299,7 @@ Print Assumptions cget_is_fine_grained_run.
    no cache: is the uncached result). *)
 Theorem cached_client_transparent : forall ch mx ops cl outs,
   chain_wf ch -> cget_run ch (new_client mx) ops = Some (cl, outs) ->
-  Forall2 (fun op out => transparent_result ch op (fst (fst out))) ops outs.
+  Forall2 (fun op out => transparent_result ch op (fst (fst (fst out)))) ops outs.
 Proof. exact cget_run_transparent. Qed.
 Print Assumptions cached_client_transparent.
 
@@ -378,7 +416,7 @@ Proof. vm_compute. reflexivity. Qed.
 (* a chain, two callers with different filters on one cached range: the
    hypotheses of the composition theorem are satisfiable *)
 Definition ex_chain : chain :=
-  chain_of [mkCB 100 1000 [mkCtx 0 900 [mkLog 0 1 50; mkLog 1 2 51]; mkCtx 2 901 [mkLog 2 1 52]]].
+  chain_of [mkCB 100 1000 [mkCtx 0 900 [mkLog 0 1 50; mkLog 1 2 51] [70; 71]; mkCtx 2 901 [mkLog 2 1 52] []]].
 Example ex_chain_wf : chain_wf ex_chain.
 Proof.
   intros n. unfold ex_chain, chain_of.
@@ -393,12 +431,23 @@ Qed.
    sees the first caller's logs too; the hypotheses of
    [cached_client_transparent] hold and its conclusion is not trivial *)
 Example ex_cget :
-  let opA := mkGop (Some KHeaders) XLogs [1] (0, 1) [] false false in
-  let opB := mkGop (Some KHeaders) XLogs [2] (0, 1) [] false false in
+  let opA := mkGop (Some KHeaders) XLogs false [1] (0, 1) [] false false None in
+  let opB := mkGop (Some KHeaders) XLogs true [2] (0, 1) [] false false None in
   match cget_run ex_chain (new_client 3) [opA; opB; opA] with
-  | Some (_, [(GOk _, 1, 1); (GOk [b2], 0, 1); (GOk _, 0, 1)]) =>
+  | Some (_, [(GOk _, 1, 1, 0); (GOk [b2], 0, 1, 1); (GOk [b3], 0, 1, 0)]) =>
       logs_of b2 0 = [mkLog 0 1 50; mkLog 1 2 51]
       /\ filter (want XLogs [2]) (logs_of b2 0) = [mkLog 1 2 51]
+      /\ traces_of b2 0 = [70; 71] /\ traces_of b3 0 = [70; 71]
   | _ => False
   end.
-Proof. vm_compute. split; reflexivity. Qed.
+Proof. vm_compute. repeat split; reflexivity. Qed.
+
+(* a trace plan over a block without traces fails (traces() treats an empty
+   reply as an error), also through the cache *)
+Example ex_cget_trace_fails :
+  match cget_run (chain_of [mkCB 100 1000 []]) (new_client 3)
+                 [mkGop (Some KHeaders) XNone true [] (0, 1) [] false false None] with
+  | Some (_, [(GErr, 1, 0, 1)]) => True
+  | _ => False
+  end.
+Proof. vm_compute. exact I. Qed.
